@@ -19,7 +19,7 @@ func main() {
 		if !c.Want(id.String()) {
 			continue
 		}
-		bk.Kits[id].Run["c20"](c, cases)
+		bk.Kits[id].Run["c20"](c, bk.CasesFor(id, c.Quick(), cases, 2))
 	}
 	c.Finish()
 }
